@@ -674,6 +674,8 @@ package mux
 //@   requires o != nil
 //@ fn buildOption
 //@   requires forall k int :: 0 <= k && k < len(o) ==> o[k] != nil
+//@   atcall mux.options.sanitize [C07] fresh-options: fresh(arg0)
+//@   atcall mux.Option [C07] fresh-options: fresh(arg1) && arg1.interceptors == callresult("syntax.NewInterceptors", 1, 0)
 //@   ensures [C05] result: result1 == nil ==> result0 != nil
 //@   inv 1 [C05] bound: -1 <= rangeindex && rangeindex < len(o) && (forall k int :: 0 <= k && k < len(o) ==> o[k] != nil)
 //@ fn f2i
@@ -699,3 +701,10 @@ package mux
 //@   requires g != nil && allSafe() && (forall k int :: 0 <= k && k < len(g.routers) ==> g.routers[k] != nil && routerTree(g.routers[k]))
 //@   inv 1 [C05] bound: -1 <= rangeindex && rangeindex < len(routers) && routers == g.routers && g.routers == old(g.routers) && allSafe() &&
 //@        (forall k int :: 0 <= k && k < len(g.routers) ==> g.routers[k] != nil && routerTree(g.routers[k]))
+
+// ---------------------------------------------------------------- instances own their interceptor tables (C07)
+// RegisterInterceptor / WithInterceptor write into the table at run time, so it must belong to one instance.
+//@ fn NewHosts
+//@   maypanic
+//@   atcall tree.New [C07] own-table: fresh(arg2) && arg2 == callresult("syntax.NewInterceptors", 1, 0)
+//@   ensures [C07] own-table: fresh(result) && result.i == callresult("syntax.NewInterceptors", 1, 0) && fresh(result.i)
